@@ -15,6 +15,7 @@ import (
 type expansion struct {
 	text         string
 	consumedNext bool // the guard statement after the call was absorbed
+	addImports   map[string]string // import path -> name: imports the caller's file needs in addition
 }
 
 // retClass: what is known, from the helper's own text, about the last (error)
@@ -54,12 +55,41 @@ func expandSite(s *inlineSite, k int, overlay map[string][]byte) (*expansion, er
 		imports[p] = name
 	}
 	missingImport := ""
+	addImports := map[string]string{}
+	nameFree := func(name string) bool {
+		for _, n := range imports {
+			if n == name {
+				return false
+			}
+		}
+		if s.pkg.Types.Scope().Lookup(name) != nil {
+			return false
+		}
+		// no local of the caller carries the name either
+		free := true
+		ast.Inspect(s.caller, func(n ast.Node) bool {
+			if id, ok := n.(*ast.Ident); ok && id.Name == name {
+				if _, isPkg := cinfo.Uses[id].(*types.PkgName); !isPkg {
+					free = false
+				}
+			}
+			return free
+		})
+		return free
+	}
 	qual := func(p *types.Package) string {
 		if p == s.pkg.Types {
 			return ""
 		}
 		if n, ok := imports[p.Path()]; ok && n != "" && n != "_" && n != "." {
 			return n
+		}
+		if n, ok := addImports[p.Path()]; ok {
+			return n
+		}
+		if nameFree(p.Name()) {
+			addImports[p.Path()] = p.Name()
+			return p.Name()
 		}
 		missingImport = p.Path()
 		return p.Name()
@@ -220,7 +250,15 @@ func expandSite(s *inlineSite, k int, overlay map[string][]byte) (*expansion, er
 		if pn, ok := obj.(*types.PkgName); ok {
 			// package names must resolve in the caller's file
 			if n, have := imports[pn.Imported().Path()]; !have || n == "" || n == "_" {
-				return nil, fmt.Errorf("caller file does not import %s", pn.Imported().Path())
+				// import it, under the name the helper's file uses, if that name is free in the caller
+				if an, added := addImports[pn.Imported().Path()]; added {
+					copyIdents[i].Name = an
+				} else if nameFree(pn.Name()) {
+					addImports[pn.Imported().Path()] = pn.Name()
+					copyIdents[i].Name = pn.Name()
+				} else {
+					return nil, fmt.Errorf("caller file does not import %s", pn.Imported().Path())
+				}
 			} else {
 				copyIdents[i].Name = n
 			}
@@ -368,7 +406,7 @@ func expandSite(s *inlineSite, k int, overlay map[string][]byte) (*expansion, er
 		if missingImport != "" {
 			return nil, fmt.Errorf("caller file does not import %s", missingImport)
 		}
-		return &expansion{text: o.String()}, nil
+		return &expansion{addImports: addImports, text: o.String()}, nil
 	}
 
 	// ---- receiver and parameters, evaluated in order
@@ -401,6 +439,31 @@ func expandSite(s *inlineSite, k int, overlay map[string][]byte) (*expansion, er
 		}
 	}
 	argi := 0
+	// f(g()) with g returning exactly the parameters of f: the results are bound in one assignment
+	if len(s.call.Args) == 1 && sig.Params().Len() > 1 {
+		if tup, isTup := cinfo.TypeOf(s.call.Args[0]).(*types.Tuple); isTup && tup.Len() == sig.Params().Len() && helper.Type.Params != nil {
+			var lhs []string
+			pi := 0
+			for _, f := range helper.Type.Params.List {
+				names := f.Names
+				if len(names) == 0 {
+					names = []*ast.Ident{ast.NewIdent("_")}
+				}
+				for _, nm := range names {
+					if nm.Name == "_" {
+						lhs = append(lhs, "_")
+					} else {
+						fmt.Fprintf(&prelude, "var %s%s %s\n_ = %s%s\n", nm.Name, suffix, typeStr(sig.Params().At(pi).Type()), nm.Name, suffix)
+						lhs = append(lhs, nm.Name+suffix)
+					}
+					pi++
+				}
+			}
+			fmt.Fprintf(&prelude, "%s = %s\n", strings.Join(lhs, ", "), printExpr(s.call.Args[0]))
+			argi = 1
+			goto bound
+		}
+	}
 	if helper.Type.Params != nil {
 		for _, f := range helper.Type.Params.List {
 			names := f.Names
@@ -424,6 +487,7 @@ func expandSite(s *inlineSite, k int, overlay map[string][]byte) (*expansion, er
 			}
 		}
 	}
+bound:
 	if argi != len(s.call.Args) {
 		return nil, fmt.Errorf("argument count mismatch")
 	}
@@ -536,7 +600,7 @@ func expandSite(s *inlineSite, k int, overlay map[string][]byte) (*expansion, er
 		if missingImport != "" {
 			return nil, fmt.Errorf("caller file does not import %s", missingImport)
 		}
-		return &expansion{text: out.String()}, nil
+		return &expansion{addImports: addImports, text: out.String()}, nil
 	}
 
 	// (1) `return helper(...)` with identical result types: the helper's returns
@@ -576,7 +640,7 @@ func expandSite(s *inlineSite, k int, overlay map[string][]byte) (*expansion, er
 			if missingImport != "" {
 				return nil, fmt.Errorf("caller file does not import %s", missingImport)
 			}
-			return &expansion{text: out.String()}, nil
+			return &expansion{addImports: addImports, text: out.String()}, nil
 		}
 	}
 
@@ -735,7 +799,7 @@ func expandSite(s *inlineSite, k int, overlay map[string][]byte) (*expansion, er
 			if missingImport != "" {
 				return nil, fmt.Errorf("caller file does not import %s", missingImport)
 			}
-			return &expansion{text: out.String()}, nil
+			return &expansion{addImports: addImports, text: out.String()}, nil
 		}
 		if usedEnd {
 			fmt.Fprintf(&out, "%s:\n", endLabel)
@@ -752,7 +816,7 @@ func expandSite(s *inlineSite, k int, overlay map[string][]byte) (*expansion, er
 		if missingImport != "" {
 			return nil, fmt.Errorf("caller file does not import %s", missingImport)
 		}
-		return &expansion{text: out.String(), consumedNext: th.guard != s.stmt}, nil
+		return &expansion{addImports: addImports, text: out.String(), consumedNext: th.guard != s.stmt}, nil
 	}
 
 	// (3) the general form: result variables, returns jump to the end
@@ -783,7 +847,8 @@ func expandSite(s *inlineSite, k int, overlay map[string][]byte) (*expansion, er
 	out.WriteString(txt)
 	out.WriteString("\n}\n")
 	if usedGoto {
-		fmt.Fprintf(&out, "%s:\n", endLabel)
+		// the label labels an empty statement, so that what follows stays a statement of its own
+		fmt.Fprintf(&out, "%s:\n;\n", endLabel)
 	}
 	fmt.Fprintf(&out, "//line %s:%d\n", cpos.Filename, cpos.Line)
 	results := make([]string, nres)
@@ -841,7 +906,7 @@ func expandSite(s *inlineSite, k int, overlay map[string][]byte) (*expansion, er
 	if missingImport != "" {
 		return nil, fmt.Errorf("caller file does not import %s", missingImport)
 	}
-	return &expansion{text: out.String()}, nil
+	return &expansion{addImports: addImports, text: out.String()}, nil
 }
 
 // enclosingFuncLit: the innermost function literal of caller that contains stmt.
